@@ -35,6 +35,10 @@ pub fn run(ctx: &mut Ctx, replay: Option<&str>) {
         }
     } else {
         flows.extend(crate::props::corpus_flows("C06").into_iter().map(|f| (f, true)));
+        for f in special_flows(&mut ctx.rng.fork(9_999_991), ctx.tier) {
+            flows.push((f, false));
+            ctx.count("stream.special_claim_set");
+        }
         let n = ctx.tier.pick(500, 8000);
         for i in 0..n {
             let mut r = ctx.rng.fork(i as u64);
@@ -107,6 +111,11 @@ pub fn run(ctx: &mut Ctx, replay: Option<&str>) {
         let loc = locate(&f.issue.claims, &hidden, &parts, f.issue.holder);
         if !loc.problems.is_empty() {
             ctx.count("issued_structure_unreadable(skipped; C05 judges it)");
+            continue;
+        }
+        if spec.get("designated").is_none() || resp[*i + 1].get("hidden").is_none() {
+            // the specification did not answer (driver failure): nothing to judge against
+            ctx.skip_model("spec-answer-missing");
             continue;
         }
         let consistent = spec.get("consistent").and_then(Value::as_bool).unwrap_or(false);
